@@ -16,6 +16,8 @@ import (
 	"os/exec"
 	"strconv"
 	"strings"
+	"sync"
+	"sync/atomic"
 	"syscall"
 	"testing"
 	"time"
@@ -46,34 +48,45 @@ func TestC15Child(t *testing.T) {
 	switch mode {
 	case "store":
 		tag := os.Getenv("VERIF_C15_TAG")
-		stop := make(chan struct{})
-		go func() { io.Copy(io.Discard, os.Stdin); close(stop) }() // stdin closed = clean stop request
-		for i := 0; ; i++ {
-			select {
-			case <-stop:
-				s.Close()
-				fmt.Fprintln(out, "CLOSED")
-				out.Flush()
-				os.Exit(0)
-			default:
-			}
-			lv := []string{"a", []string{"x", "y", "z"}[i%3]}
-			if i%4 == 0 {
-				lv = lv[:1]
-			}
-			ch := strings.Join(lv, "/") + "/"
-			m := message.New(ssidOf(c15Contract, lv), []byte(ch), []byte(fmt.Sprintf("%s-%d-%s", tag, i, strings.Repeat("p", i%97))))
-			m.TTL = uint32(1000000 + i%1000)
-			fmt.Fprintf(out, "TRY %s %s %d %s\n", hex.EncodeToString(m.ID), ch, m.TTL, m.Payload)
-			out.Flush()
-			if err := s.Store(m); err != nil {
-				fmt.Fprintf(out, "STOREERR %v\n", err)
-				out.Flush()
-				continue
-			}
-			fmt.Fprintf(out, "ACK %s\n", hex.EncodeToString(m.ID))
-			out.Flush()
+		writers, _ := strconv.Atoi(os.Getenv("VERIF_C15_WRITERS"))
+		if writers < 1 {
+			writers = 1
 		}
+		var omu sync.Mutex
+		emit := func(format string, a ...interface{}) {
+			omu.Lock()
+			fmt.Fprintf(out, format, a...)
+			out.Flush()
+			omu.Unlock()
+		}
+		var stopped int32
+		for w := 0; w < writers; w++ {
+			go func(w int) {
+				for i := 0; atomic.LoadInt32(&stopped) == 0; i++ {
+					lv := []string{"a", []string{"x", "y", "z"}[i%3]}
+					if i%4 == 0 {
+						lv = lv[:1]
+					}
+					ch := strings.Join(lv, "/") + "/"
+					m := message.New(ssidOf(c15Contract, lv), []byte(ch), []byte(fmt.Sprintf("%s-w%d-%d-%s", tag, w, i, strings.Repeat("p", i%97))))
+					m.TTL = uint32(1000000 + i%1000)
+					emit("TRY %s %s %d %s\n", hex.EncodeToString(m.ID), ch, m.TTL, m.Payload)
+					if err := s.Store(m); err != nil {
+						emit("STOREERR %v\n", err)
+						if atomic.LoadInt32(&stopped) != 0 {
+							return
+						}
+						continue
+					}
+					emit("ACK %s\n", hex.EncodeToString(m.ID))
+				}
+			}(w)
+		}
+		io.Copy(io.Discard, os.Stdin) // stdin closed = clean stop request, while the writers are still storing
+		s.Close()
+		atomic.StoreInt32(&stopped, 1)
+		emit("CLOSED\n")
+		os.Exit(0)
 	case "read":
 		var cont message.ID
 		for page := 0; page < 100000; page++ {
@@ -105,7 +118,7 @@ type c15Msg struct{ ch, ttl, payload string }
 func TestC15(t *testing.T) {
 	rec := vk.New("C15", "kill")
 	defer rec.Finish(t)
-	rec.Rule("case = one directory: 3-8 cycles of a child process storing into a real storage.SSD (TRY line, Store, ACK line, each flushed) ended by SIGKILL after a seeded number of acknowledgements, by SIGKILL at a seeded instant (so kills land inside Store), or by a clean stop; " +
+	rec.Rule("case = one directory: 3-8 cycles of a child process storing into a real storage.SSD (TRY line, Store, ACK line, each flushed; 1 or 4 concurrent writer goroutines) ended by SIGKILL after a seeded number of acknowledgements, by SIGKILL at a seeded instant (so kills land inside Store), or by a clean stop; " +
 		"then a fresh process pages through Query with continuation to exhaustion; checked: the store reopens every time, ACK ⊆ READ ⊆ TRY, id/channel/payload/ttl of every acknowledged message identical; non-trivial = directories with >=2 SIGKILL cycles and >=100 acknowledged stores; distinct = (kill plan, acknowledged count per cycle)")
 	self := os.Getenv("VERIF_BIN")
 	if self == "" {
@@ -140,7 +153,11 @@ func runC15(rec *vk.Rec, ci int, self string) {
 		k := r.Range(1, 400)
 		delay := time.Duration(r.Range(200, 60000)) * time.Microsecond
 		cmd := exec.Command(self, "-test.run", "^TestC15Child$", "-test.timeout", "0")
-		cmd.Env = append(os.Environ(), "VERIF_C15_MODE=store", "VERIF_C15_DIR="+dir, fmt.Sprintf("VERIF_C15_TAG=d%dc%d", ci, cy), "VERIF_OUT=")
+		writers := 1
+		if r.Chance(50) {
+			writers = 4 // concurrent publishers: a clean stop then lands while Store calls are in flight
+		}
+		cmd.Env = append(os.Environ(), "VERIF_C15_MODE=store", "VERIF_C15_DIR="+dir, fmt.Sprintf("VERIF_C15_TAG=d%dc%d", ci, cy), fmt.Sprintf("VERIF_C15_WRITERS=%d", writers), "VERIF_OUT=")
 		stdin, _ := cmd.StdinPipe()
 		stdout, _ := cmd.StdoutPipe()
 		cmd.Stderr = nil
@@ -214,7 +231,7 @@ func runC15(rec *vk.Rec, ci int, self string) {
 			kills++
 		}
 		totalAck += acks
-		plan = append(plan, fmt.Sprintf("%s:%d", []string{"kill-after-acks", "kill-at-instant", "clean-stop"}[mode], acks))
+		plan = append(plan, fmt.Sprintf("%s(w%d):%d", []string{"kill-after-acks", "kill-at-instant", "clean-stop"}[mode], writers, acks))
 		rec.Inc("cycles_" + []string{"kill_after_acks", "kill_at_instant", "clean_stop"}[mode])
 	}
 	// a torn ACK line: "ACK <prefix of id>" — acknowledged ids must be complete ids that were tried; handled above.
